@@ -82,6 +82,12 @@ def run(replay=None):
             rep.skip('rejected:' + o)
             continue
         events.append(record(text, decorate(p, rnd), 'parsed+metadata'))
+        if rnd.random() < (1.0 if thorough else 0.3):
+            # an EQUAL property (same text, new object) with other metadata: the result must carry ITS metadata
+            o1, p1 = call_parser('property', text)
+            p1.metadata.update({'id': 'twin%d' % rnd.randrange(1000), 'description': 'second object'})
+            p1.scope.metadata['s'] = 'twin-scope'
+            events.append(record(text, p1, 'equal-twin-with-other-metadata'))
         if rnd.random() < (1.0 if thorough else 0.35):
             o2, p2 = call_parser('property', text)
             try:
